@@ -244,8 +244,9 @@ impl TopologicalSortMachine
             },
         };
 
+        /*  Indices of the frames in the stack which have been visited, i.e. the
+            ancestors of the frame currently being expanded */
         let mut indices_in_stack = HashSet::new();
-        indices_in_stack.insert(index);
         let mut stack = vec![starting_frame];
 
         /*  Depth-first traversal using 'stack' */
@@ -293,6 +294,17 @@ impl TopologicalSortMachine
 
                                     return Err(TopologicalSortError::CircularDependence(target_cycle));
                                 }
+
+                                /*  The source's frame may be waiting in the stack, discovered by
+                                    an ancestor but not expanded yet.  That is not a cycle, but the
+                                    frame has to be finished before this one, so move it up. */
+                                if let Some(position) = stack.iter().position(
+                                    |f| f.index == *buffer_index && !f.visited)
+                                {
+                                    let mut pending = stack.remove(position);
+                                    pending.sub_index = *sub_index;
+                                    reverser.push(pending);
+                                }
                             }
                         },
                         None =>
@@ -308,7 +320,6 @@ impl TopologicalSortMachine
 
                 while let Some(f) = reverser.pop()
                 {
-                    indices_in_stack.insert(f.index);
                     stack.push(f);
                 }
             }
